@@ -98,6 +98,7 @@ class Program:
                 from . import derefactor as _dr
                 _dr.PURE_NAMES = alpha.pure_getters(mm.tree for mm in self.modules.values())
                 _dr.MUTABLE_ATTRS = alpha.mutable_attrs(mm.tree for mm in self.modules.values())
+                _dr.INT_CONSTANTS = alpha.int_constants(mm.tree for mm in self.modules.values())
             import copy as _copy
             backup = _copy.deepcopy(m.tree)
             try:
